@@ -225,7 +225,7 @@ Definition check_part (s : lstate) (b : rdr) (usize ucrc : N) (comp : bytes) (ch
   match e with
   | Some e => (Some e, s)
   | None =>
-    let is_lz4 := bytes_eqb comp [x6c; x7a; x34] in
+    let is_lz4 := drains_chunk comp in
     let extra_bad := if is_lz4 then
                        match r_buf r1, r_end r1 with
                        | [], None => None
@@ -374,7 +374,7 @@ Proof.
   - exists s0; split; [|reflexivity]. split; cbn; auto.
 Qed.
 
-Definition is_lz4 (comp : bytes) : bool := bytes_eqb comp [x6c; x7a; x34].
+Definition is_lz4 (comp : bytes) : bool := drains_chunk comp.
 Definition is_lazy (comp : bytes) : bool := bytes_eqb comp [] || mem_bytes comp (lo_custom lo).
 
 Lemma check_part_ok s c0 base b us crc comp data extra pend :
